@@ -388,6 +388,7 @@ class EventProperty(OntologyElement):
           edxml.ontology.EventProperty: The EventProperty instance
         """
         self.__concepts[concept_association.get_concept_name()] = concept_association
+        self._child_modified_callback()
         return self
 
     def set_merge_strategy(self, merge_strategy):
@@ -580,6 +581,7 @@ class EventProperty(OntologyElement):
         self.__concepts[concept_name] = edxml.ontology.PropertyConcept(
             self.__event_type, self, concept_name, confidence=confidence, naming_priority=cnp
         )
+        self._child_modified_callback()
         return self.__concepts[concept_name]
 
     def set_multi_valued(self, is_multivalued):
